@@ -513,7 +513,6 @@ func checkC12(r *Report, known []Finding) {
 	replayKnownExamples(r, known, "C12")
 }
 
-
 func hayKind(h []byte) string {
 	if !utf8.Valid(h) {
 		return "ill-formed"
